@@ -1,7 +1,7 @@
 (* C06 — lemmas behind C06_Props.v. *)
 From Coq Require Import List NArith Bool Arith Lia ZifyBool ZifyN ZifyNat.
 From Dae.gen Require Import C06_Extracted.
-From Dae Require Import C06_Spec C06_Model C06_Async C06_Session C06_Clock C06_Key C06_Statements.
+From Dae Require Import C06_Spec C06_Model C06_Async C06_Session C06_Clock C06_Key C06_HttpVar C06_Statements.
 From Dae Require Export C06_ProofsCarried C06_ProofsOob C06_ProofsTls C06_ProofsChunk C06_ProofsHttp C06_ProofsQuic C06_ProofsAsync C06_ProofsSession C06_ProofsClock C06_ProofsKey.
 Import ListNotations.
 Open Scope N_scope.
@@ -102,3 +102,22 @@ Qed.
 
 Lemma C06_frames_roundtrip_proof : C06_frames_roundtrip_stmt.
 Proof. exact C06_reassemble_roundtrip. Qed.
+
+(* ------------------------------------------------------------------ HTTP: the head ends at the empty line *)
+Lemma C06_http_no_host_no_name_proof : C06_http_no_host_no_name_stmt.
+Proof.
+  unfold C06_http_no_host_no_name_stmt. intros q body slack Hwf Hnone.
+  rewrite (C06_http_roundtrip_proof q body slack Hwf). unfold host_of. rewrite Hnone. reflexivity.
+Qed.
+
+(* GET / HTTP/1.1 CRLF X:1 CRLF CRLF | Host: evil CRLF CRLF *)
+Definition past_head_witness : http_head :=
+  {| q_method := [71; 69; 84]; q_target := [47]; q_version := [72; 84; 84; 80; 47; 49; 46; 49];
+     q_headers := [([88], [49])] |}.
+Definition past_body_witness : bytes := [72; 111; 115; 116; 58; 32; 101; 118; 105; 108; 13; 10; 13; 10].
+
+Lemma C06_http_scan_past_head_refuted_proof : C06_http_scan_past_head_refuted_stmt.
+Proof.
+  exists past_head_witness, past_body_witness. vm_compute.
+  split; [reflexivity|]. split; [reflexivity|]. split; [discriminate|]. eexists. reflexivity.
+Qed.
